@@ -17,28 +17,34 @@ CLAIMS = {
         text="Proof: every in-place writer, appending writer, length function and buffer reader of thrift.Binary is verified against one written-down Thrift "
              "Binary encoding predicate (big-endian words, 4-byte length prefix + bytes) for all values, all buffer contents and all buffer lengths; "
              "writers additionally against their frame (only the advertised bytes are written). Unbounded: parameters are symbolic.",
-        note="Stream writer/reader halves (BufferWriter/BufferReader over bufiox) are not yet under contract in this check. " + TRUST,
+        note="The stream writer/reader halves are proved against the bufiox.Reader / bufiox.Writer interface contracts (ghost stream), i.e. for every fragmentation at once; that DefaultReader/DefaultWriter "
+             "refine those contracts is the business of C04/C05. " + TRUST,
         design="5 C01"),
     "C02": dict(
         text="Proof: Binary.Skip / skipType / skipstr return exactly the length given by the Thrift Binary grammar (internal/verifspec ValLenD, an executable "
              "oracle written from the protocol description) for every byte string, type byte and nesting budget; loops by invariants, recursion by the callee contract, "
              "fast paths by two induction lemmas that are themselves verified.",
-        note="Only the buffer skipper is under contract so far; the stream skipper and the three skip decoders are not yet covered by this check. " + TRUST,
+        note="Binary.Skip is proved exactly equal to the grammar; the stream skipper and the generic skip decoder by the sandwich the property states (exact agreement at budget 63, acceptance only of what the "
+             "grammar accepts at 64); BytesSkipDecoder and SkipDecoder are proved to refine the SkipDecoderIface contract and their Next returns exactly the value's bytes and consumes exactly its length. "
+             "ReaderSkipDecoder (io.Reader-backed) is not yet under contract. " + TRUST,
         design="5 C02"),
     "C03": dict(
         text="Proof of absence of run-time panics (index, slice bounds, nil, division, type assertion, unsafe reads inside the allocation) and of the extent clause "
              "(success implies consumed <= len(input)) for all byte strings and all 256 type bytes, for the thrift.Binary readers, ReadMessageBegin and Skip.",
-        note="FastRead structs, unknown-field conversion, TTHeader decode and the stream paths are not yet under contract in this check. " + TRUST,
+        note="Covered: thrift.Binary readers, ReadMessageBegin, Skip, the stream reader and skippers, skip decoders, ApplicationException.FastRead, FastUnmarshal, UnmarshalFastMsg. "
+             "Not yet: Base/BaseResp FastRead, unknown-field conversion, TTHeader decode. " + TRUST,
         design="5 C03"),
     "C08": dict(
         text="Proof: the buffer skipper agrees with the grammar in both directions: success iff the grammar says a complete well-formed value is present, with the exact extent; "
              "truncation / unknown type, negative size and exhausted nesting budget (64) each yield an error; recursion is bounded (decreases maxdepth).",
-        note="Buffer skipper only so far (see C02). Nesting budget semantics are those of ValLenD: containers, structs and unknown-typed values consume budget, scalars and strings do not. " + TRUST,
+        note="Same functions as C02 (all but ReaderSkipDecoder). Nesting budget semantics are those of ValLenD: containers, structs and unknown-typed values consume budget, scalars and strings do not. " + TRUST,
         design="5 C08"),
     "C12": dict(
-        text="Proof: WriteMessageBegin / AppendMessageBegin produce the strict-version envelope encoding for every name, type and sequence id; Binary.ReadMessageBegin decodes exactly that "
+        text="Proof: MarshalFastMsg / UnmarshalFastMsg against the FastCodec interface contract (any payload struct): empty method is an error; otherwise the envelope encoding followed by exactly the "
+             "payload's advertised length, the payload written into / read from exactly the bytes after the envelope; an EXCEPTION-typed message never touches the caller's struct and surfaces as an "
+             "application exception; BufferWriter/BufferReader envelope functions over the bufiox interface contracts. Also: WriteMessageBegin / AppendMessageBegin produce the strict-version envelope encoding for every name, type and sequence id; Binary.ReadMessageBegin decodes exactly that "
              "encoding, rejects every first word without the version marker as BAD_VERSION and every truncation with an error, and reports the exact consumed length.",
-        note="BufferWriter/BufferReader envelope functions and Marshal/UnmarshalFastMsg are not yet under contract in this check. " + TRUST,
+        note="The decoded type id / text of the surfaced application exception are not yet tied to the payload bytes (ApplicationException.FastRead is proved for extent and safety only). " + TRUST,
         design="5 C12"),
     "C15": dict(
         text="Proof: WriteBinaryNocopy / WriteStringNocopy are byte-identical to the copying writers when no direct writer is attached or the value is below the 4096 threshold; otherwise they "
